@@ -91,7 +91,6 @@ Record ambient := mkAmb {
 
 Record world := mkWorld {
   w_reqs : rid -> reqst;                     (* request 0 is the orphan pseudo-request *)
-  w_n : nat;                                 (* requests 1 .. w_n exist *)
   w_store : list ((nat * handle) * Z);       (* (arena, key) -> value; arena 0 = the process-global one *)
   w_panic : bool                             (* an arena access with no live arena (the code panics) *)
 }.
@@ -110,10 +109,10 @@ Fixpoint set_nth {A} (n : nat) (x : A) (l : list A) : list A :=
   end.
 
 Definition set_req (r : rid) (q : reqst) (w : world) : world :=
-  mkWorld (fun x => if Nat.eqb x r then q else w_reqs w x) (w_n w) (w_store w) (w_panic w).
+  mkWorld (fun x => if Nat.eqb x r then q else w_reqs w x) (w_store w) (w_panic w).
 Definition set_store (s : list ((nat * handle) * Z)) (w : world) : world :=
-  mkWorld (w_reqs w) (w_n w) s (w_panic w).
-Definition set_panic (w : world) : world := mkWorld (w_reqs w) (w_n w) (w_store w) true.
+  mkWorld (w_reqs w) s (w_panic w).
+Definition set_panic (w : world) : world := mkWorld (w_reqs w) (w_store w) true.
 
 Definition upd_owners (f : list owner -> list owner) (q : reqst) : reqst :=
   mkReq (q_prog q) (q_ngates q) (q_started q) (q_dropped q) (f (q_owners q)) (q_slots q) (q_tasks q)
@@ -429,7 +428,7 @@ Definition poll_task (sb : bool) (r : rid) (t : nat) (c : cfg) : cfg :=
     top-level task, which is wrapped in Sandboxed only *)
 Definition start (sb : bool) (r : rid) (c : cfg) : cfg :=
   let q := get_req r (c_w c) in
-  if q_started q || Nat.eqb r 0 || Nat.ltb (w_n (c_w c)) r then c else
+  if q_started q || Nat.eqb r 0 then c else
   let q' := mkReq (q_prog q) (q_ngates q) true false [mkOwner None [] [] []] [] [mkTask (Some (Some r)) (q_prog q)]
                   [] 0 [] [] in
   let amb := c_amb c in
@@ -447,12 +446,12 @@ Definition step (sb : bool) (e : sev) (c : cfg) : cfg :=
   match e with
   | SStart r => start sb r c
   | SFire r g => if q_started (get_req r (c_w c)) then upd_req r (add_fired g) c else c
-  | SPoll r t => if q_started (get_req r (c_w c)) then poll_task sb r t c else c
+  | SPoll r t => poll_task sb r t c
   end.
 
 Definition run_sched (sb : bool) (s : list sev) (c : cfg) : cfg := fold_left (fun c e => step sb e c) s c.
 
-Definition orphan_req : reqst := mkReq [] 0 true false [mkOwner None [] [] []] [] [] [] 0 [] [].
+Definition orphan_req : reqst := mkReq [] 0 false false [mkOwner None [] [] []] [] [] [] 0 [] [].
 Definition init_world (progs : list (list instr * nat)) : cfg :=
   mkCfg (mkWorld (fun r => match r with
                            | O => orphan_req
@@ -461,7 +460,7 @@ Definition init_world (progs : list (list instr * nat)) : cfg :=
                                     | None => empty_req
                                     end
                            end)
-                 (length progs) [] false)
+                 [] false)
         (mkAmb None None None).
 
 (** * The view grammar of the harness and how the code wraps each construct *)
@@ -531,6 +530,9 @@ Definition main_prog (r : rid) (v : view) : list instr :=
       :: compile r v ++ [IObs 0 [IScoped WCapture [IAwait FINAL_GATE]]]);
    IDropRoot].
 
+Fixpoint mapi_from {A B} (i : nat) (f : nat -> A -> B) (l : list A) : list B :=
+  match l with [] => [] | x :: t => f i x :: mapi_from (S i) f t end.
+
 Fixpoint max_gate (v : view) : nat :=
   match v with
   | VEl c | VProvide _ c | VCleanup _ c | VAlloc _ c => max_gate c
@@ -540,6 +542,10 @@ Fixpoint max_gate (v : view) : nat :=
   | VResource _ g _ _ _ c => Nat.max (S g) (max_gate c)
   | _ => 0
   end.
+
+(** the programs (and numbers of external futures) of the requests of a harness case *)
+Definition harness_progs (views : list view) : list (list instr * nat) :=
+  mapi_from 1 (fun r v => (main_prog r v, max_gate v)) views.
 
 (** * The coarse actions of the harness, as functions on configurations *)
 Fixpoint poll_range (sb : bool) (r : rid) (n : nat) (from : nat) (c : cfg) : cfg :=
